@@ -95,11 +95,34 @@ pub fn run(seed: u64, n: usize, outdir: &str, _corpus: Option<&str>) -> std::io:
         let t2 = text.clone();
         let parsed = guarded(move || vibrato::Dictionary::verif_parse_lex_csv(t2.as_bytes()));
         *dist.entry(format!("{}_{}", if wellformed { "wellformed" } else { "corrupted" }, parsed.kind())).or_default() += 1;
+        // the same rows (ids reduced into a 4x4 connector) compiled into a dictionary: the features
+        // as STORED, read back with Dictionary::word_feature in row order
+        let small: Vec<SrcRow> = rows.iter().map(|r| SrcRow { lid: r.lid % 4, rid: r.rid % 4, ..r.clone() }).collect();
+        let csv2 = render(&mut rng, &small);
+        let do_build = wellformed && i % 4 == 0;
+        let stored = if !do_build { Outcome::Err } else { guarded(move || {
+            let mut m = String::from("4 4\n");
+            for r in 0..4 { for l in 0..4 { m.push_str(&format!("{} {} 0\n", r, l)); } }
+            vibrato::SystemDictionaryBuilder::from_readers(csv2.as_bytes(), m.as_bytes(), "DEFAULT 0 1 0\n".as_bytes(), "DEFAULT,0,0,1,u\n".as_bytes())
+        }) };
+        let nkept = rows.iter().filter(|r| !r.surface.is_empty()).count();
+        let stored_t = match &stored {
+            Outcome::Ok(d) => {
+                let fs: Vec<String> = (0..nkept)
+                    .map(|i| d.word_feature(vibrato::dictionary::WordIdx { lex_type: vibrato::dictionary::LexType::System, word_id: i as u32 }).to_string())
+                    .collect();
+                format!("(Ok {})", clist(&fs, |f| cbytes(f.as_bytes())))
+            }
+            Outcome::Err => "Err".to_string(),
+            Outcome::Panic => "Panic".to_string(),
+        };
+        let stored_t = if do_build { format!("(Some {})", stored_t) } else { "None".to_string() };
         let term = format!(
-            "(Build_c11case {} {} {} {})",
+            "(Build_c11case {} {} {} {} {})",
             cbool(wellformed), cbytes(text.as_bytes()),
             clist(&rows, |r| crow(&r.surface, r.lid, r.rid, r.cost, &r.feature_raw)),
-            cres(&parsed, |v| clist(v, |(s, l, r, c, f)| crow(s, *l, *r, *c, f)))
+            cres(&parsed, |v| clist(v, |(s, l, r, c, f)| crow(s, *l, *r, *c, f))),
+            stored_t
         );
         let human = format!("wellformed={} csv={}", wellformed, json_str(&text));
         if sh.push_h(format!("seed:{}", sub), term, human.clone()) && samples.len() < 3 {
